@@ -1,13 +1,15 @@
 #!/bin/sh
 # Build Coq targets of one property under the directory locks:  driver/coqmake.sh C08 C08/Props.vo [more targets]
-# (extra source directories a property depends on:  COQ_DIRS="C08 C02" driver/coqmake.sh C08 ...)
-# Locks .coq.lock.<dir> for Common and every directory involved, in sorted order (same protocol as driver/lib.py).
+# (extra source directories a property depends on:  COQ_DIRS="C03 C04" driver/coqmake.sh C03 ...)
+# Same protocol as driver/lib.py: .coq.lock.<dir> taken in sorted order; the property's own directory exclusively,
+# Common and dependency directories shared (they are only read; build a dependency through ITS OWN property id).
 V="$(cd "$(dirname "$0")/.." && pwd)"
 pid="$1"; shift
 dirs="${COQ_DIRS:-$pid}"
 locks=$(printf '%s\n' Common $dirs | sort -u)
 cmd='cd "'"$V"'/coq" && sh mk_coqproject.sh '"$dirs"' && timeout 1500 make -f Makefile.'"$pid"' -j16 "$@"'
 for l in $(printf '%s\n' $locks | sort -r); do
-  cmd="flock '$V/.coq.lock.$l' sh -c '$(printf '%s' "$cmd" | sed "s/'/'\\\\''/g")' sh \"\$@\""
+  if [ "$l" = "$pid" ]; then mode=-x; else mode=-s; fi
+  cmd="flock $mode '$V/.coq.lock.$l' sh -c '$(printf '%s' "$cmd" | sed "s/'/'\\\\''/g")' sh \"\$@\""
 done
 exec sh -c "$cmd" sh "$@"
